@@ -343,3 +343,70 @@ def structure_of(world, components):
         else:
             names.append(kind)
     return names
+
+
+class GeneSimulator:
+    """Perfect-aligner simulator for ANY loaded Gene (shipped databases at their real coordinates).
+    Variants are applied in genome terms (the catalogue's own keys): substitutions replace bases, a
+    deletion removes the keyed bases, an insertion follows the keyed base.  The chromosome is cut
+    shortly behind the gene so that the temporary N-padded reference stays small."""
+
+    FL = 400
+
+    def __init__(self, gene):
+        self.gene = gene
+        lo, hi = gene._lookup_range
+        wide = gene.get_wide_region()
+        self.lo, self.hi = min(lo, wide.start), max(hi, wide.end)
+        self.n0 = self.hi + 2000
+        self.chrlen = self.n0 + NEUTRAL_LEN + 1000
+        fill = worlds.lcg_seq(17, 4000)
+        self.fill = fill
+
+    def base(self, pos):
+        b = self.gene[pos]
+        return b if b != "N" else self.fill[pos % len(self.fill)]
+
+    def neutral_region(self):
+        from aldy.common import GRange
+        return GRange(self.gene.chr, self.n0, self.n0 + NEUTRAL_LEN)
+
+    def copy_events(self, variants):
+        s, e = self.lo - self.FL, self.hi + self.FL
+        cols = {p: [("M", p, self.base(p))] for p in range(s, e)}
+        for pos, op in sorted(variants, key=lambda v: (v[1].startswith("ins"), v)):
+            if ">" in op:
+                l, r = op.split(">")
+                for k in range(len(l)):
+                    if l[k] != ".":
+                        cols[pos + k] = [("M", pos + k, r[k])]
+            elif op.startswith("ins"):
+                cols[pos] = cols[pos] + [("I", None, b) for b in op[3:]]
+            else:
+                body = op[3:]
+                ins = ""
+                if "ins" in body:
+                    body, ins = body.split("ins")
+                for k in range(len(body)):
+                    cols[pos + k] = [("D", pos + k, None)]
+                if ins:
+                    cols[pos + len(body) - 1] = cols[pos + len(body) - 1] + [("I", None, b) for b in ins]
+        return [it for p in range(s, e) for it in cols[p]]
+
+    def gene_copy(self, variants, rl, depth, name):
+        return tile(self.copy_events(variants), rl, depth, name)
+
+    def neutral(self, rl, depth, name):
+        ev = [("M", p, self.fill[p % len(self.fill)]) for p in range(self.n0 - 300, self.n0 + NEUTRAL_LEN + 300)]
+        return tile(ev, rl, depth, name)
+
+    def sample(self, copies, rl=100, depth=20):
+        reads = []
+        for i, var in enumerate(copies):
+            reads += self.gene_copy(var, rl, depth, f"c{i}")
+        for c in range(2):
+            reads += self.neutral(rl, depth, f"n{c}")
+        return reads
+
+    def write(self, path, reads):
+        return write_bam(path, reads, chrom=self.gene.chr, chrlen=self.chrlen)
